@@ -45,8 +45,17 @@ VARIANT = None
 SHORT = ["en", "de", "it", "es"]
 
 
+# "prefix-codes": language codes one of which is the beginning of another, the longer one listed first
+PREFIXED = ["pt-BR", "pt", "en-US", "en"]
+
+
 def lang_codes():
-    return SHORT if VARIANT == "short-codes+styles" else LANGS
+    return SHORT if VARIANT == "short-codes+styles" else (PREFIXED if VARIANT == "prefix-codes" else LANGS)
+
+
+def tag(lang):
+    """the word that marks a cue as belonging to a language"""
+    return lang.replace("-", "").lower() if VARIANT == "prefix-codes" else lang[:2]
 
 
 def bounds(tier):
@@ -77,7 +86,7 @@ def build(assign):
         lang = lang_codes()[li]
         cl = CaptionList()
         for ci, (s, e) in enumerate(cues):
-            cl.append(Caption(s * 1000, e * 1000, [CaptionNode.create_text(f"{lang[:2]}{ci}")]))
+            cl.append(Caption(s * 1000, e * 1000, [CaptionNode.create_text(f"{tag(lang)}{ci}")]))
         caps[lang] = cl
     cs = CaptionSet(caps)
     if VARIANT == "short-codes+styles":
@@ -93,7 +102,7 @@ def build(assign):
 
 def model(assign):
     L = lang_codes()
-    m = {L[li]: [(s, e, f"{L[li][:2]}{ci}") for ci, (s, e) in enumerate(cues)] for li, cues in enumerate(assign)}
+    m = {L[li]: [(s, e, f"{tag(L[li])}{ci}") for ci, (s, e) in enumerate(cues)] for li, cues in enumerate(assign)}
     if VARIANT == "last-language-empty":
         m[L[len(assign) - 1]] = []
     return m
@@ -173,9 +182,11 @@ def eval_dfxp(assign, force=None, writer="DFXPWriter"):
     cs = build(assign)
     langs = list(m)
     kw = {}
-    if force == "existing":
-        kw["force"] = langs[-1]
-        exp_langs = [langs[-1]]
+    if force and force.startswith("existing"):
+        # "existing": the last language; "existing<j>": language number j
+        forced = langs[int(force[8:] or -1)]
+        kw["force"] = forced
+        exp_langs = [forced]
     elif force == "missing":
         kw["force"] = "xx-XX"
         exp_langs = langs
@@ -333,7 +344,7 @@ def shards(tier, seed):
         sh.append({"k": "docs", "_env": env})
         sh.append({"k": "docs", "_env": dict(env, PYCAPTION_DEFAULT_LANG="xx")})
         if full:
-            for variant in ("short-codes+styles", "adjusted", "last-language-empty"):
+            for variant in ("short-codes+styles", "adjusted", "last-language-empty", "prefix-codes"):
                 for nl in (2, 3, 4):
                     for p in range(2):
                         sh.append({"k": "sets", "nl": nl, "lat": b["lattice_points"][nl], "part": p, "nparts": 2, "stride": 7 if tier == "quick" else 2, "variant": variant, "_env": env})
@@ -361,6 +372,14 @@ def run_shard(d):
                     acc.case(("dfxp-" + wr, assign, VARIANT), True, out, {"route": wr, "cues_ms_per_language": assign, "variant": VARIANT})
                     for kind, det in v:
                         acc.violation(f"C14/{kind}/langs{d['nl']}{vx}", {"k": "dfxp", "force": None, "writer": wr, "assign": assign, "variant": VARIANT, "_env": d["_env"]}, det)
+                continue
+            if VARIANT == "prefix-codes":
+                for wr in ("DFXPWriter", "SinglePositioningDFXPWriter", "LegacyDFXPWriter"):
+                    for j in range(d["nl"]):
+                        v, out = eval_dfxp(assign, f"existing{j}", wr)
+                        acc.case(("dfxp-" + wr, assign, VARIANT, j), True, out, {"route": wr, "cues_ms_per_language": assign, "variant": VARIANT, "force": lang_codes()[j]})
+                        for kind, det in v:
+                            acc.violation(f"C14/{kind}/langs{d['nl']}{vx}", {"k": "dfxp", "force": f"existing{j}", "writer": wr, "assign": assign, "variant": VARIANT, "_env": d["_env"]}, det)
                 continue
             # the same writer object used for one set after the other must write what a fresh writer writes
             for name, cls in (("sami", pycaption.SAMIWriter), ("dfxp", pycaption.DFXPWriter)):
